@@ -408,7 +408,7 @@ func ruleLoggerLockset(c *Ctx, r *Report, prefix string) {
 	guarded := map[*types.Var]bool{}
 	for i := 0; i < st.NumFields(); i++ {
 		f := st.Field(i)
-		if f.Name() == "mu" {
+		if refNameOf(f) == "mu" {
 			muF = f
 		} else {
 			guarded[f] = true
